@@ -115,8 +115,9 @@ extern ssize_t mpt_array_push(MPT_STRUCT(encode_array) *arr, size_t len, const v
 		}
 		b->_used = off;
 		
-		/* require larger buffer */
-		if (cont == MPT_ERROR(MissingBuffer)) {
+		/* require larger buffer (also when the encoder could not take any of the data) */
+		if (cont == MPT_ERROR(MissingBuffer)
+		    || (!cont && data && len)) {
 			if (!(b = b->_vptr->detach(b, b->_size + 64))) {
 				return max ? max : MPT_ERROR(MissingBuffer);
 			}
